@@ -108,6 +108,25 @@ def handleL3 (req ans : String) : Verdict :=
       { model := if ok then ans else m, specOk := specOk,
         spec := s!"accepted, and the emitted line is a jump to `tgt` of the condition class Intel gives for `{nm}`", nontrivial := true }
     | _ => bad
+  | ["asmx", e1, e2] =>
+    -- C13: a program with macro uses against the same program with every use written out by hand
+    -- (the reference expansion is made by the generator: simultaneous whole-word substitution,
+    -- the function `expandTk` of Props.C13Subst); "!" = the reference refuses (recursion, missing argument)
+    match pctDecode e1, ans.splitOn " || " with
+    | some s1, [a1, a2] =>
+      let (m1, ok1) := asmVerdict s1 a1
+      let lists := fun (a : String) => ((a.splitOn " | ").filter fun f => f.startsWith "c=" || f.startsWith "d=" || f.startsWith "f=")
+      if e2 == "!" then
+        { model := if ok1 then ans else s!"{m1} || !", specOk := a1.startsWith "ERR ",
+          spec := "the reference refuses this use (recursion / missing argument): a diagnostic is required", nontrivial := true }
+      else match pctDecode e2 with
+        | none => bad
+        | some s2 =>
+          let (m2, ok2) := asmVerdict s2 a2
+          let same := (a2.startsWith "OK" && a1.startsWith "OK" && lists a1 == lists a2) || (a2.startsWith "ERR " && a1.startsWith "ERR ")
+          { model := if ok1 && ok2 then ans else s!"{m1} || {m2}", specOk := same,
+            spec := "the macro program emits exactly the code of its hand-expanded form (or both are refused)", nontrivial := a2.startsWith "OK" }
+    | _, _ => bad
   | ["asm2", e1, e2, expV] =>
     match pctDecode e1, pctDecode e2, ans.splitOn " || " with
     | some s1, some s2, [a1, a2] =>
